@@ -3,7 +3,19 @@ import J5V.Bcl.Diff
 namespace J5V.Bcl
 open J5V.Go
 
-/-- fragment line ranges: ascending from `lo`, non-overlapping, `from < to ≤ n` -/
+/-- raw fragment line ranges as the walker produces them: `from < to ≤ n`, and each fragment starts
+no earlier than the last line of the previous one (`lo` = previous `toLine`) -/
+def RawWF (n : Nat) : Nat → List Edit → Prop
+  | _, [] => True
+  | lo, d :: ds => lo ≤ d.fromLine + 1 ∧ d.fromLine < d.toLine ∧ d.toLine ≤ n ∧ RawWF n d.toLine ds
+
+instance (n : Nat) : (lo : Nat) → (ds : List Edit) → Decidable (RawWF n lo ds)
+  | _, [] => isTrue trivial
+  | lo, d :: ds =>
+    have := instDecidableRawWF n d.toLine ds
+    by unfold RawWF; exact inferInstance
+
+/-- merged fragment line ranges: ascending from `lo`, non-overlapping, `from < to ≤ n` -/
 def FragsWF (n : Nat) : Nat → List Edit → Prop
   | _, [] => True
   | lo, d :: ds => lo ≤ d.fromLine ∧ d.fromLine < d.toLine ∧ d.toLine ≤ n ∧ FragsWF n d.toLine ds
@@ -31,12 +43,47 @@ theorem EditsWF_mono {n lo lo' : Nat} {es : List Edit} (h : EditsWF n lo es) (hl
   | nil => trivial
   | cons e es => exact ⟨Nat.le_trans hl h.1, h.2⟩
 
+theorem mergeInto_wf (n : Nat) (ds : List Edit) (l : Edit) (lo : Nat) (h0 : lo ≤ l.fromLine)
+    (h1 : l.fromLine < l.toLine) (h2 : l.toLine ≤ n) (h : RawWF n l.toLine ds) :
+    FragsWF n lo (mergeInto l ds) := by
+  induction ds generalizing l lo with
+  | nil => exact ⟨h0, h1, h2, trivial⟩
+  | cons d ds ih =>
+    obtain ⟨g1, g2, g3, g4⟩ := h
+    unfold mergeInto
+    split
+    · apply ih
+      · exact h0
+      · simp only; omega
+      · simp only; omega
+      · have : max l.toLine d.toLine = d.toLine := by omega
+        simp only [this]; exact g4
+    · exact ⟨h0, h1, h2, ih d l.toLine (by omega) g2 g3 g4⟩
+
+theorem mergeFrags_wf (n : Nat) (ds : List Edit) (h : RawWF n 0 ds) : FragsWF n 0 (mergeFrags ds) := by
+  cases ds with
+  | nil => trivial
+  | cons d ds =>
+    obtain ⟨_, g2, g3, g4⟩ := h
+    exact mergeInto_wf n ds d 0 (Nat.zero_le _) g2 g3 g4
+
 theorem rangeLines_ok {lines : List (List Nat)} {a b : Nat} (h1 : a ≤ b) (h2 : b ≤ lines.length) :
     rangeLines lines a b = .ok (joinWith [cNL] ((lines.take b).drop a) ++ [cNL]) := by
   unfold rangeLines sliceLines
   have : ¬ b > lines.length := by omega
   have : ¬ a > b := by omega
   simp [*]
+
+theorem gapNeeded_ok {lines : List (List Nat)} {lastEnd from_ : Nat} (h : from_ < lines.length) :
+    ∃ g, gapNeeded lines lastEnd from_ = .ok g := by
+  unfold gapNeeded
+  split
+  · exact ⟨_, rfl⟩
+  · split
+    · have : lastEnd < lines.length := by omega
+      rw [List.getElem?_eq_getElem this]
+      exact ⟨_, rfl⟩
+    · exact ⟨_, rfl⟩
 
 /-- the loop appends a well-formed list of edits that starts at `lastEnd` -/
 theorem fmtDiffsLoop_spec (lines : List (List Nat)) (ds : List Edit) (lastEnd : Nat)
@@ -48,31 +95,34 @@ theorem fmtDiffsLoop_spec (lines : List (List Nat)) (ds : List Edit) (lastEnd : 
   | cons d ds ih =>
     obtain ⟨h1, h2, h3, h4⟩ := h
     unfold fmtDiffsLoop
-    simp only [rangeLines_ok (Nat.le_of_lt h2) h3]
-    by_cases hg : d.fromLine > lastEnd + 1 <;> by_cases hx :
+    obtain ⟨g, hg⟩ := gapNeeded_ok (lines := lines) (lastEnd := lastEnd) (from_ := d.fromLine)
+      (by omega)
+    simp only [hg, rangeLines_ok (Nat.le_of_lt h2) h3]
+    cases g <;> by_cases hx :
       joinWith [cNL] (List.drop d.fromLine (List.take d.toLine lines)) ++ [cNL] = d.newText
     all_goals
-      simp only [ne_eq, hg, hx, not_true_eq_false, not_false_eq_true, if_true, if_false]
+      simp only [ne_eq, hx, not_true_eq_false, not_false_eq_true, if_true, if_false,
+        Bool.false_eq_true]
       obtain ⟨added, ha, hw⟩ := ih d.toLine h4 _
       rw [ha]
+    · exact ⟨added, by simp, EditsWF_mono hw (by omega)⟩
+    · refine ⟨d :: added, by simp, ?_⟩
+      exact ⟨h1, Nat.le_of_lt h2, h3, hw⟩
     · refine ⟨⟨lastEnd, d.fromLine, [cNL]⟩ :: added, by simp, ?_⟩
       exact ⟨Nat.le_refl _, by simp only; omega, by simp only; omega,
         EditsWF_mono hw (by simp only; omega)⟩
     · refine ⟨⟨lastEnd, d.fromLine, [cNL]⟩ :: d :: added, by simp, ?_⟩
       exact ⟨Nat.le_refl _, by simp only; omega, by simp only; omega, Nat.le_refl _,
         Nat.le_of_lt h2, h3, hw⟩
-    · exact ⟨added, by simp, EditsWF_mono hw (by omega)⟩
-    · refine ⟨d :: added, by simp, ?_⟩
-      exact ⟨h1, Nat.le_of_lt h2, h3, hw⟩
 
-theorem fmtDiffs_spec (lines : List (List Nat)) (ds : List Edit)
+theorem fmtDiffsMerged_spec (lines : List (List Nat)) (ds : List Edit)
     (h : FragsWF lines.length 0 ds) :
-    ∃ es, fmtDiffs lines ds = .ok es ∧ EditsWF lines.length 0 es := by
+    ∃ es, fmtDiffsMerged lines ds = .ok es ∧ EditsWF lines.length 0 es := by
   cases ds with
   | nil => exact ⟨[], rfl, trivial⟩
   | cons d ds =>
     obtain ⟨_, h2, h3, h4⟩ := h
-    unfold fmtDiffs
+    unfold fmtDiffsMerged
     simp only [rangeLines_ok (Nat.le_of_lt h2) h3]
     by_cases hg : d.fromLine > 0 <;> by_cases hx :
       joinWith [cNL] (List.drop d.fromLine (List.take d.toLine lines)) ++ [cNL] = d.newText
@@ -90,5 +140,10 @@ theorem fmtDiffs_spec (lines : List (List Nat)) (ds : List Edit)
       simpa using EditsWF_mono hw (Nat.zero_le _)
     · refine ⟨_, rfl, ?_⟩
       exact ⟨Nat.zero_le _, Nat.le_of_lt h2, h3, hw⟩
+
+theorem fmtDiffs_spec (lines : List (List Nat)) (all : List Edit)
+    (h : RawWF lines.length 0 all) :
+    ∃ es, fmtDiffs lines all = .ok es ∧ EditsWF lines.length 0 es :=
+  fmtDiffsMerged_spec lines _ (mergeFrags_wf _ _ h)
 
 end J5V.Bcl
